@@ -76,7 +76,7 @@ def gen_ops(rng, nops):
             ops.append({"op": "getitem", "h": h, "g": g, "key": key})
         elif r < 0.65:
             items = [[rng.choice(KEYS), gen_value(rng, n=rng.choice([3, 3, 2]))] for _ in range(rng.choice([1, 2, 3]))]
-            ops.append({"op": "update", "h": h, "g": g, "items": items, "kw": rng.random() < 0.5})
+            ops.append({"op": "update", "h": h, "g": g, "items": items, "kw": rng.choice([True, False, "mix"])})
         elif r < 0.68:
             ops.append({"op": "clear", "h": h, "g": g})
         elif r < 0.73:
@@ -94,8 +94,8 @@ def gen_ops(rng, nops):
         elif r < 0.94:
             ops.append({"op": "ds_get", "h": h, "d": rng.randrange(ND), "name": rng.choice(["mesh", "part", "x"])})
         elif r < 0.96:
-            ops.append({"op": "ds_update", "h": h, "d": rng.randrange(ND), "names": [rng.choice(["mesh", "part", "x"]) for _ in range(2)],
-                        "gs": [rng.randrange(NG) for _ in range(2)], "kw": rng.random() < 0.5})
+            ops.append({"op": "ds_update", "h": h, "d": rng.randrange(ND), "names": [rng.choice(["mesh", "part", "x"]) for _ in range(rng.choice([2, 3]))],
+                        "gs": [rng.randrange(NG) for _ in range(3)], "kw": rng.choice([True, False, "mix", "mix"])})
         elif r < 0.975:
             ops.append({"op": "ds_clear", "h": h, "d": rng.randrange(ND)})
         else:
@@ -297,7 +297,17 @@ def execute(case, stats):
                 vals = {kk: v for kk, o, v in items}
                 pre_keys = list(W.groups[g].keys())
                 try:
-                    if op["kw"]:
+                    if op["kw"] == "mix" and len(items) > 1:
+                        # dict.update(mapping, **kwargs): the mapping first, then the keywords (which win on shared keys)
+                        pos_items = dict([(kk, o) for kk, o, v in items[:-1]])
+                        kw_items = {items[-1][0]: items[-1][1]}
+                        W.groups[g].update(pos_items, **kw_items)
+                        ref = dict(pos_items)
+                        ref.update(kw_items)
+                        d = ref
+                        vals = {kk: v for kk, o, v in items}
+                        vals[items[-1][0]] = items[-1][2]
+                    elif op["kw"]:
                         W.groups[g].update(**d)
                     else:
                         W.groups[g].update(d)
@@ -481,15 +491,26 @@ def execute(case, stats):
                     V(step, op, "get", {"present": False})
             elif k == "ds_update":
                 d = op["d"]
-                dd = {n: W.groups[g] for n, g in zip(op["names"], op["gs"])}
-                if op["kw"]:
-                    W.ds[d].update(**dd)
+                pairs = list(zip(op["names"], op["gs"]))
+                if op["kw"] == "mix" and len(pairs) > 1:
+                    pos = {}
+                    for n, g in pairs[:-1]:
+                        pos[n] = g
+                    kwp = {pairs[-1][0]: pairs[-1][1]}
+                    W.ds[d].update({n: W.groups[g] for n, g in pos.items()}, **{n: W.groups[g] for n, g in kwp.items()})
+                    ref = dict(pos)
+                    ref.update(kwp)  # dict semantics: positional mapping first, keywords afterwards and winning
+                    stats.inc("probe.update_with_mapping_and_keywords")
                 else:
-                    W.ds[d].update(dd)
-                for n, g in zip(op["names"], op["gs"]):
-                    pass
-                for n in dd:
-                    gi = [g for nn, g in zip(op["names"], op["gs"]) if nn == n][-1]
+                    ref = {}
+                    for n, g in pairs:
+                        ref[n] = g
+                    dd = {n: W.groups[g] for n, g in ref.items()}
+                    if op["kw"]:
+                        W.ds[d].update(**dd)
+                    else:
+                        W.ds[d].update(dd)
+                for n, gi in ref.items():
                     W.mds[d][n] = gi
                 n_change += 1
             elif k == "ds_clear":
